@@ -43,6 +43,20 @@ def check_from(gd, dist, D, q, r, central):
     return None
 
 
+def make_ball(graph, D, cut):
+    """The BFS result with hashes for layers 0..D, obtained the way `cut` says: by max_diameter, by the layer-size limit, or by a stop condition."""
+    if not cut or cut[0] == "diameter":
+        return graph.bfs(max_diameter=D, return_all_hashes=True)
+    if cut[0] == "explore":
+        return graph.bfs(max_layer_size_to_explore=cut[1], return_all_hashes=True)
+    seen = []
+
+    def stop(layer, hashes):
+        seen.append(len(hashes))
+        return len(seen) >= cut[1]
+    return graph.bfs(stop_condition=stop, return_all_hashes=True)
+
+
 def run(ctx):
     import translators
     translators.gen_all(strict=True)
@@ -62,15 +76,29 @@ def run(ctx):
             layers, dist = G.ref_bfs(gd, [gd["central"]])
             ecc = len(layers) - 1
             D = rng.choice([0, 1, 2, ecc, ecc + 2, rng.randint(0, ecc + 1)])
-            ball = graph.bfs(max_diameter=D, return_all_hashes=True) if D >= 1 else graph.bfs(max_diameter=0, return_all_hashes=True)
+            cut = ["diameter", D]
+            r0 = rng.random()
+            sizes = [len(l) for l in layers]
+            if ecc >= 2 and r0 < 0.3:
+                # the same ball obtained through the layer-size limit: BFS stops after the first layer (index >= 1) with at least L states
+                L = sizes[rng.randint(1, ecc)]
+                D = next(i for i in range(1, ecc + 1) if sizes[i] >= L)
+                cut = ["explore", L]
+            elif ecc >= 2 and r0 < 0.4:
+                D = rng.randint(1, ecc)
+                cut = ["stop", D]
+            ctx.count("ball_cut_by_" + cut[0])
+            ball = make_ball(graph, D, cut)
             Deff = len(ball.layer_sizes) - 1
+            if cut[0] != "diameter" and Deff != D:
+                ctx.violation("property_fails", f"BFS cut by {cut} kept layers 0..{Deff}, the reference says 0..{D}", {"graph": gd, "config": cfgd, "depth": D, "cut": cut, "query": list(gd["central"]), "finder": "to"}, True)
             qs = P.query_states(rng, gd, layers, dist, Deff, ctx.budget(5, 8))
             qlits = []
             ic = bool(graph.definition.generators_inverse_closed)
             for q in qs:
                 r, lit = P.res_path_lit(lambda: graph.find_path_to(list(q), ball))
                 qlits.append(f"(QTo {czl(q)}, {lit})")
-                case = {"graph": gd, "config": cfgd, "depth": D, "query": q, "finder": "to"}
+                case = {"graph": gd, "config": cfgd, "depth": D, "cut": cut, "query": q, "finder": "to"}
                 d = dist.get(tuple(q))
                 ctx.case_seen(case, d is None or d >= 2)
                 ctx.count("query_" + ("outside_orbit" if d is None else "inside_ball" if d <= Deff else "outside_ball"))
@@ -96,7 +124,7 @@ def run(ctx):
                     if len(rv) != len(pth) or G.run_path(gd, end, rv) != tuple(q):
                         ctx.violation("property_fails", "revert_path does not lead back", {"graph": gd, "path": pth, "state": q, "finder": "revert"}, True)
             coq_cases.append(f"(Build_path_case {G.coq_gdesc(gd, graph)} {P.inv_mats_lit(graph)} {graph.batch_size} {D}%N {clist(qlits)})")
-            metas.append({"graph": gd, "config": cfgd, "depth": D, "queries": qs})
+            metas.append({"graph": gd, "config": cfgd, "depth": D, "cut": cut, "queries": qs})
             ctx.count("kind_" + gd["kind"]); ctx.count("directed" if not ic else "undirected")
     ctx.sample(metas[0]); ctx.sample(metas[-1])
     ctx.cov["correspondence"]["isin_calls_monitored"] = mon.calls
@@ -116,8 +144,11 @@ def replay(ctx, obj):
         msgs = []
         for s in (cfgd.get("random_seed"), 11, 222):
             graph = G.make_graph(gd, dict(cfgd, random_seed=s))
-            ball = graph.bfs(max_diameter=D, return_all_hashes=True)
+            ball = make_ball(graph, D, case.get("cut"))
             Deff = len(ball.layer_sizes) - 1
+            if case.get("cut") and case["cut"][0] != "diameter" and Deff != D:
+                msgs.append(f"BFS cut by {case['cut']} kept layers 0..{Deff}, the reference says 0..{D}")
+                continue
             if case["finder"] == "to":
                 r, _ = P.res_path_lit(lambda: graph.find_path_to(list(q), ball))
                 m = check_to(gd, dist, Deff, q, r, tuple(gd["central"]))
